@@ -3,6 +3,7 @@ use std::io::{Read, Seek, SeekFrom, Write};
 
 fn req(q: &str, top_k: usize) -> SearchRequest {
     SearchRequest { query: q.to_string(), top_k, snippet_chars: 200, uri: None, scope: None, cursor: None,
+        #[cfg(feature = "wide")] temporal: None,
         as_of_frame: None, as_of_ts: None, no_sketch: false, acl_context: None,
         acl_enforcement_mode: AclEnforcementMode::Audit }
 }
@@ -102,6 +103,26 @@ fn c39() {
     let ids_out: Vec<u64> = back.iter().map(|e| e.frame_id).collect();
     println!("C39 sketch track ids written {:?} read back {:?}", ids_in, ids_out);
 }
+
+
+#[cfg(feature = "wide")]
+fn c19() {
+    let dir = tempfile::tempdir().unwrap();
+    let p = dir.path().join("a.mv2");
+    let mut m = Memvid::create(&p).unwrap();
+    m.put_bytes(b"hello sidecar world").unwrap();
+    m.commit().unwrap();
+    let ls = |d: &std::path::Path| { let mut v: Vec<String> = std::fs::read_dir(d).unwrap().map(|e| e.unwrap().file_name().to_string_lossy().to_string()).collect(); v.sort(); v };
+    println!("C19 directory while handle alive (after create/put/commit): {:?}", ls(dir.path()));
+    let sid = m.start_session(Some("s".to_string()), None);
+    println!("C19 start_session: {:?}", sid.is_ok());
+    let _ = m.save_active_session();
+    println!("C19 directory after save_active_session: {:?}", ls(dir.path()));
+    drop(m);
+    println!("C19 directory after drop: {:?}", ls(dir.path()));
+}
+#[cfg(not(feature = "wide"))]
+fn c19() { println!("C19 needs --features wide"); }
 
 fn c32() {
     let dir = tempfile::tempdir().unwrap();
@@ -320,5 +341,5 @@ fn c08() {
 
 fn main() {
     let which = std::env::args().nth(1).unwrap_or_default();
-    match which.as_str() { "c05"=>c05(), "c26"=>c26(), "c20"=>c20(), "c20blob"=>c20blob(), "c07"=>c07(), "c39"=>c39(), "c32"=>c32(), "c11"=>c11(), "c17"=>c17(), "c08"=>c08(), "c29"=>c29(), "c14"=>c14(), "c09"=>c09(), "c18"=>c18(), "c23"=>c23(), "c16"=>c16(), "c40"=>c40(), "c24"=>c24(), "c15"=>c15(), "c22"=>c22(), _=>{ c05(); c26(); c20(); c11(); c17(); } }
+    match which.as_str() { "c05"=>c05(), "c26"=>c26(), "c20"=>c20(), "c20blob"=>c20blob(), "c07"=>c07(), "c39"=>c39(), "c19"=>c19(), "c32"=>c32(), "c11"=>c11(), "c17"=>c17(), "c08"=>c08(), "c29"=>c29(), "c14"=>c14(), "c09"=>c09(), "c18"=>c18(), "c23"=>c23(), "c16"=>c16(), "c40"=>c40(), "c24"=>c24(), "c15"=>c15(), "c22"=>c22(), _=>{ c05(); c26(); c20(); c11(); c17(); } }
 }
